@@ -79,7 +79,7 @@ func recovery(logger *slog.Logger, c Context, handle RecoveryFunc) {
 				if idx < 0 {
 					continue
 				}
-				if slices.Contains(blacklistedHeader, string(header[:idx])) {
+				if isBlacklistedHeader(header[:idx]) {
 					sb.Write(header[:idx])
 					sb.WriteString(": <redacted>")
 					continue
@@ -120,6 +120,16 @@ func recovery(logger *slog.Logger, c Context, handle RecoveryFunc) {
 			handle(c, err)
 		}
 	}
+}
+
+// isBlacklistedHeader reports whether name is a credential-bearing header, whatever its capitalisation.
+func isBlacklistedHeader(name []byte) bool {
+	for _, h := range blacklistedHeader {
+		if strings.EqualFold(h, string(name)) {
+			return true
+		}
+	}
+	return false
 }
 
 func connIsBroken(err any) bool {
